@@ -242,11 +242,19 @@ func (r *rawProto) readMessage(bb *utils.ByteBuffer, m Message) error {
 	bb.ChangeLen(lastSize)
 
 	// transfer pipe
+	lastSize, err = minus(lastSize, 1)
+	if err != nil {
+		return err
+	}
 	_, err = io.ReadFull(r.r, bb.B[:1])
 	if err != nil {
 		return err
 	}
 	var xferLen = bb.B[0]
+	lastSize, err = minus(lastSize, int(xferLen))
+	if err != nil {
+		return err
+	}
 	if xferLen > 0 {
 		_, err = io.ReadFull(r.r, bb.B[:xferLen])
 		if err != nil {
@@ -256,10 +264,6 @@ func (r *rawProto) readMessage(bb *utils.ByteBuffer, m Message) error {
 		if err != nil {
 			return err
 		}
-	}
-	lastSize, err = minus(lastSize, 1+int(xferLen))
-	if err != nil {
-		return err
 	}
 	// read last all
 	bb.ChangeLen(lastSize)
